@@ -883,6 +883,88 @@ theorem good_path {v : Variant} {ok : Bool} {s t : St} (p : IntPath v ok s t) (h
     obtain ⟨h3, h4⟩ := ih h2
     exact ⟨h3.trans h1, h4⟩
 
+/-! ### a renewal in flight does not block readers -/
+
+/-- Paths made of consumer statements only (no statement of Run, no issuer answer). -/
+inductive ConsPath (v : Variant) : St → St → Prop where
+  | refl (s : St) : ConsPath v s s
+  | head {s t u : St} (i : Nat) : step v s (.cons i) = some t → ConsPath v t u → ConsPath v s u
+
+/-- Results held in `t` were already held in `s0` or are `s0`'s current SVID. -/
+def ReadOld (s0 t : St) : Prop :=
+  ∀ (i : Nat) (r : Option Nat), (t.cons[i]? = some (.gUnlock r) ∨ t.cons[i]? = some (.gDone r)) →
+    (s0.cons[i]? = some (.gUnlock r) ∨ s0.cons[i]? = some (.gDone r)) ∨ r = s0.svid
+
+theorem readOld_step {s0 s t : St} {j : Nat} (h : ReadOld s0 s) (hsv : s.svid = s0.svid)
+    (hs : step .fixed s (.cons j) = some t) : ReadOld s0 t ∧ t.svid = s0.svid ∧ t.run = s.run := by
+  obtain ⟨pc, b, hj, rfl, hcase⟩ := consStep_fixed_cases hs
+  refine ⟨?_, hsv, rfl⟩
+  intro i r hir
+  by_cases hij : j = i
+  · subst hij
+    have hlt : j < s.cons.length := (List.getElem?_eq_some_iff.mp hj).1
+    simp only [List.getElem?_set_self hlt, Option.some.injEq] at hir
+    rcases hcase with ⟨_, rfl, _⟩ | ⟨_, rfl, _⟩ | ⟨_, rfl, _⟩ | ⟨_, rfl, _⟩ | ⟨_, rfl⟩ | ⟨r', hpc, rfl⟩
+    · simp at hir
+    · simp at hir
+    · simp at hir
+    · simp at hir
+    · simp at hir; exact Or.inr (hir ▸ hsv.symm ▸ rfl)
+    · simp at hir; subst hir; exact h j r' (Or.inl (hpc ▸ hj))
+  · have : (s.cons.set j b)[i]? = s.cons[i]? := List.getElem?_set_ne hij
+    simp only [this] at hir
+    exact h i r hir
+
+theorem cons_only_progress : ∀ (n : Nat) (s0 s : St), sumBy consRank s.cons ≤ n → BaseInv s → FixedInv s →
+    s.run = .rotFetch → ReadOld s0 s → s.svid = s0.svid →
+    ∃ t, ConsPath .fixed s t ∧ t.allReturned = true ∧ t.run = .rotFetch ∧ t.svid = s0.svid ∧ ReadOld s0 t ∧
+      t.cons.length = s.cons.length := by
+  intro n
+  induction n with
+  | zero =>
+    intro s0 s hn hb hf hrun hro hsv
+    cases hall : s.allReturned
+    · -- some consumer is not returned but the measure is 0: impossible
+      have : ∃ a ∈ s.cons, a.returned = false := by
+        simp only [St.allReturned] at hall
+        obtain ⟨a, ha, hna⟩ := List.all_eq_false.mp hall
+        exact ⟨a, ha, by simpa using hna⟩
+      obtain ⟨a, ham, hna⟩ := this
+      obtain ⟨i, hi⟩ := List.getElem?_of_mem ham
+      have := sumBy_ge_of_getElem consRank s.cons i a hi
+      rcases not_returned_cases hna with h | h | h | h | h | ⟨r, h⟩ <;> subst h <;> simp [consRank] at this <;> omega
+    · exact ⟨s, .refl s, hall, hrun, hsv, hro, rfl⟩
+  | succ n ih =>
+    intro s0 s hn hb hf hrun hro hsv
+    cases hall : s.allReturned
+    · have : ∃ a ∈ s.cons, a.returned = false := by
+        simp only [St.allReturned] at hall
+        obtain ⟨a, ha, hna⟩ := List.all_eq_false.mp hall
+        exact ⟨a, ha, by simpa using hna⟩
+      obtain ⟨a, ham, hna⟩ := this
+      obtain ⟨i, hi⟩ := List.getElem?_of_mem ham
+      have hready : s.ready = true := by rw [hb.ready, hrun]; rfl
+      have hcan : s.canRLock = true := by simp only [St.canRLock, hb.held, hb.pend, hrun]; rfl
+      have hen : (a = .gHold ∨ ∃ r, a = .gUnlock r) ∨
+          (s.ready = true ∧ (a = .yWait ∨ a = .gCall ∨ a = .gHoldWait)) ∨
+          (s.canRLock = true ∧ a = .gPassed) := by
+        rcases not_returned_cases hna with h | h | h | h | h | h
+        · exact Or.inr (Or.inl ⟨hready, Or.inl h⟩)
+        · exact Or.inr (Or.inl ⟨hready, Or.inr (Or.inl h)⟩)
+        · exact Or.inr (Or.inl ⟨hready, Or.inr (Or.inr h)⟩)
+        · exact Or.inr (Or.inr ⟨hcan, h⟩)
+        · exact Or.inl (Or.inl h)
+        · exact Or.inl (Or.inr h)
+      obtain ⟨t, ht, hlt⟩ := cons_progress hi hen
+      obtain ⟨hro', hsv', hrun'⟩ := readOld_step hro hsv ht
+      have hlen : t.cons.length = s.cons.length := by
+        obtain ⟨pc, b, _, rfl⟩ := consStep_shape ht; simp
+      have hmeas : sumBy consRank t.cons ≤ n := by
+        simp only [total, hrun'] at hlt; omega
+      obtain ⟨u, hp, hu⟩ := ih s0 t hmeas (baseInv_step .fixed hb ht) (fixedInv_step hb hf ht) (hrun' ▸ hrun) hro' hsv'
+      exact ⟨u, .head i ht hp, hu.1, hu.2.1, hu.2.2.1, hu.2.2.2.1, by rw [hu.2.2.2.2, hlen]⟩
+    · exact ⟨s, .refl s, hall, hrun, hsv, hro, rfl⟩
+
 /-! ### the deadlock of the code before the repair -/
 
 /-- `GetX509SVID` took the read lock and waits for `readyCh`; `Run` won the CAS, announced itself as
